@@ -18,6 +18,8 @@ GRAMMARS = {
     "ignore2": dict(src='start: "a" "b"*\n%ignore " "\n%ignore /#[ab]*;/\n', charset="ab #;x"),
     "opt": dict(src='start: "a"? B\nB: /b+/ | "c"\n', charset="abcx"),
     "mb": dict(src='start: W+\nW: /[é€a]/\n', charset="é€ab𝄞"),
+    "mb3": dict(src='start: W+ "x"\nW: /[日本€]/ | "℃"\n', charset="日本€℃x"),
+    "samepat": dict(src='start: A B | X Y\nA: "ab"\nB: "ab"i\nX: "c+"\nY: /c+/\n', charset="abABc+"),
 }
 
 
